@@ -636,8 +636,17 @@ static void run_op(int client, int opidx, const Op &op)
 		}
 	} else if (name == "fs_log_clear") { if (sim_nclients() <= 1) simfs_log_clear(); r.push_back("ok");
 	} else if (name == "mkfile") {
-		FILE *f = fopen(a[1].c_str(), "wb");
-		if (f) { fwrite(a[2].data(), 1, a[2].size(), f); fclose(f); r.push_back("ok"); } else r.push_back("fail");
+		// Files that several clients prepare under the same name (include files of the shipped examples) have the same content:
+		// an existing identical file is left alone, and a new one appears atomically (write aside, rename), so that no client can
+		// read a half-written input file of the harness itself.
+		std::string have;
+		if (slurp(a[1], have) && have == a[2]) r.push_back("ok");
+		else {
+			char tmp[600];
+			snprintf(tmp, sizeof tmp, "%s.tmp%d", a[1].c_str(), sim_self()->id);
+			FILE *f = fopen(tmp, "wb");
+			if (f) { fwrite(a[2].data(), 1, a[2].size(), f); fclose(f); r.push_back(rename(tmp, a[1].c_str()) == 0 ? "ok" : "fail"); } else r.push_back("fail");
+		}
 	} else if (name == "mkdir") { r.push_back(itos(mkdir(a[1].c_str(), 0777)));
 	} else if (name == "readfile") {
 		std::string s;
